@@ -647,6 +647,29 @@ func (p c13) Run(w *mon.Worker, idx int) mon.Result {
 				obsKind, obsVal = "value", rs[0]
 			}
 		}
+		// the same read as SECOND document of a stream and through a copy of the top-level value made by an operator
+		// (`[.k] | .[0]…`, `.k as $v | $v…`): what a path reads does not depend on where the document stands
+		if idx%5 == 3 && len(pth) >= 2 && e == nil {
+			if k0, isKey := pth[0].(string); isKey {
+				rest := expr[len("."+k0):]
+				if strings.HasPrefix(rest, "[") {
+					rest = " | ." + rest
+				}
+				// (the first document has none of the keys: it reads null)
+				e2 := fmt.Sprintf("[.%s] | .[0]%s", k0, rest)
+				lead := "null\n"
+				if len(pth)%2 == 0 {
+					// (the left side of `as` is read-only: the missing key of the first document binds nothing)
+					e2, lead = fmt.Sprintf(".%s as $v | $v%s", k0, rest), ""
+				}
+				o2, er2, pn2 := yqx.Eval(e2, "first: 0\n---\n"+text, "yaml", "json")
+				res.Evals++
+				if pn2 != nil || er2 != nil || o2 != lead+o {
+					return fail("`%s` on the document alone prints %q; as second document of a stream, `%s` prints %q (err %v %v)\n%s", expr, clipStr(o, 200), e2, clipStr(o2, 200), er2, pn2, text)
+				}
+				res.Tags = append(res.Tags, "second_document_copy")
+			}
+		}
 		// the path is followed with traversal semantics (qt), the node reached is then printed,
 		// i.e. exploded, with explode semantics (qv)
 		matches := func(qt, qv c13Quirks) bool {
